@@ -211,6 +211,7 @@ func loadEngine(cfg *Config) (*Engine, error) {
 	}
 	if bp := eng.pkgs["bufio"]; bp != nil {
 		eng.bufioErrInvalidUnreadByte = bp.Var("ErrInvalidUnreadByte")
+		eng.bufioErrBufferFull = bp.Var("ErrBufferFull")
 	}
 	if eng.errorStringType == nil || eng.ioEOF == nil {
 		return nil, fmt.Errorf("standard packages errors/io not found in the program")
